@@ -4,10 +4,10 @@ tier=${1:-quick}
 cd /verif
 for pid in $(python3 -c "import json;print(' '.join(c['property_id'] for c in json.load(open('MANIFEST.json'))['checks']))"); do
   s=$(date +%s)
-  bin/vcheck $pid --tier $tier > /tmp/runall_$pid.out 2>&1; code=$?
+  bin/vcheck $pid --tier $tier > /tmp/runall_${tier}_$pid.out 2>&1; code=$?
   e=$(date +%s)
-  echo "$pid exit=$code $((e-s))s | $(grep -c KNOWN-FINDING /tmp/runall_$pid.out) known | $(grep SUMMARY /tmp/runall_$pid.out)"
-  grep "VIOLATION\|UNDECIDED\|VACUOUS\|NOT-REPRO" /tmp/runall_$pid.out | head -5
+  echo "$pid exit=$code $((e-s))s | $(grep -c KNOWN-FINDING /tmp/runall_${tier}_$pid.out) known | $(grep SUMMARY /tmp/runall_${tier}_$pid.out)"
+  grep "VIOLATION\|UNDECIDED\|VACUOUS\|NOT-REPRO" /tmp/runall_${tier}_$pid.out | head -5
 done
 python3-vt - <<'PY'
 import json, jsonschema, glob
